@@ -762,6 +762,97 @@ def input_model(ctx: Ctx, names, timeout_ms=10000):
     return out
 
 
+def input_model_at_witness(ctx: Ctx, names, timeout_ms=10000):
+    """second kind of solver-made witness: every variable EXCEPT the scalar inputs `names` is fixed at its witness value (data,
+    stub outputs, aliases), so the path condition becomes a constraint system over the scalar inputs alone - exact wherever the
+    non-scalar quantities do not depend on those scalars (thresholds, tolerances, counts). z3 decides it (QF_NRA over a handful of
+    variables, usually linear); the model is a candidate like any other: it is executed and replayed. -> {name: float} or None"""
+    import z3 as _z3
+
+    idx_of = {vi.name: i for i, vi in enumerate(ctx.vars) if vi.kind == "input" and vi.name in names}
+    if not idx_of:
+        return None
+    zv = {i: _z3.Real(f"w_{n}") for n, i in idx_of.items()}
+    s = _z3.Solver()
+    s.set("timeout", int(timeout_ms))
+
+    def expr(p):
+        tot = _z3.RealVal(0)
+        for m, c in p.t.items():
+            coef = Fraction(c) if not isinstance(c, Fraction) else c
+            num = 1.0
+            term = None
+            for v, e in m:
+                if v == 0:
+                    return None  # imaginary unit
+                if v in zv:
+                    f = zv[v] if e == 1 else zv[v] ** e
+                    if e < 0:
+                        return None
+                    term = f if term is None else term * f
+                else:
+                    val = ctx.value_of(v)
+                    if val is None:
+                        return None
+                    if isinstance(val, complex):
+                        if abs(val.imag) > 1e-300:
+                            return None
+                        val = val.real
+                    num *= float(val) ** e
+            if num != num or num in (float("inf"), float("-inf")):
+                return None
+            k = _z3.RealVal(str(Fraction(num) * coef))
+            tot = tot + (k if term is None else k * term)
+        return tot
+
+    def mentions(p):
+        return any(v in zv for m in p.t for v, _ in m)
+
+    cons = []
+    for a in list(ctx.assumptions) + ctx.path_assumptions():
+        try:
+            if not mentions(a.p):
+                continue
+            e = expr(a.p)
+        except Exception:  # noqa
+            e = None
+        if e is None:
+            continue
+        cons.append((a.kind, e))
+    if not cons:
+        return None
+    # stay away from the boundaries of the region (the values are rounded to floats before they are executed): margins tried in turn
+    found = False
+    for mg in (1e-6, 1e-8, 1e-11, 0.0):
+        s.push()
+        g = _z3.RealVal(str(Fraction(mg)))
+        for kind, e in cons:
+            if mg and kind in ("ge", "gt"):
+                s.add(e >= g)
+            elif mg and kind in ("le", "lt"):
+                s.add(e <= -g)
+            else:
+                s.add({"eq": e == 0, "ne": e != 0, "ge": e >= 0, "gt": e > 0, "le": e <= 0, "lt": e < 0}[kind])
+        if str(s.check()) == "sat":
+            found = True
+            break
+        s.pop()
+    if not found:
+        return None
+    m = s.model()
+    out = {}
+    for n, i in idx_of.items():
+        val = m.eval(zv[i], model_completion=True)
+        try:
+            out[n] = float(Fraction(val.numerator_as_long(), val.denominator_as_long()))
+        except Exception:  # noqa - algebraic number
+            try:
+                out[n] = float(val.approx(20).as_fraction())
+            except Exception:  # noqa
+                return None
+    return out
+
+
 def consistent(ctx: Ctx, timeout_ms=10000) -> str:
     """vacuity guard: the (abstracted) assumptions and path condition must not be contradictory.
     Returns 'sat' / 'unknown' / 'unsat'."""
